@@ -39,7 +39,7 @@ func (e *Engine) execCall(st *State, c *ssa.CallCommon, instr ssa.Instruction, p
 	case *ssa.Builtin:
 		if f.Name() == "append" && e.cur != nil && e.cur.fc != nil && e.cur.fc.Opts["forkappend"] != "" && st.fr.parent == nil {
 			// fork on "fits in place" so that each path sees one array, not an ite of two
-			if s, ok := e.get(st, c.Args[0]).(SliceV); ok {
+			if s, ok := e.get(st, c.Args[0]).(SliceV); ok && !(e.cur.fc.Opts["forkappend"] == "nonbyte" && isByteElem(s.Elem)) {
 				var n *smt.Term
 				switch x := e.get(st, c.Args[1]).(type) {
 				case SliceV:
@@ -551,4 +551,12 @@ func (e *Engine) callAnnotation(st *State, instr ssa.Instruction, name string) *
 		}
 	}
 	return nil
+}
+
+func isByteElem(t types.Type) bool {
+	if t == nil {
+		return false
+	}
+	b, ok := t.Underlying().(*types.Basic)
+	return ok && b.Kind() == types.Uint8
 }
